@@ -35,6 +35,13 @@ class RecoveryMonitor(Ext):
                 self.check_recovered(p, info)
 
     def on_kill(self, p):
+        try:
+            # the step in which it was killed: a leader that advanced its commit index before the kill instant has counted
+            # itself for those entries (the new commit index may already be on the wire)
+            if p.voter and p.obj._isLeader() and p.obj.raftCommitIndex > self.ack_hw.get(p.key, 0):
+                self.ack_hw[p.key] = p.obj.raftCommitIndex
+        except Exception:
+            pass
         hw = self.ack_hw.get(p.key, 0)
         j = p.journal
         vouched = [(e[1], e[2]) for e in j.mirror if e[1] <= hw]
